@@ -202,6 +202,23 @@ def check_case(case):
             out.append((f"result-depends-on-history/{probe['kind']}", f"{probe.get('inst', {}).get('cls', probe.get('type'))} {which}: {H.canon(r0)[:200]} != {H.canon(r1 if r0 != r1 else r2)[:200]}"))
         if inst is not None and held_state(inst) != h0:
             out.append(("held-instance-changed-by-later-work", f"{probe['inst']['cls']}"))
+    elif case["kind"] == "threads" and case.get("fresh"):
+        # the threads are the FIRST users of the classes in a brand-new interpreter (first-use initialisation races),
+        # the sequential baseline is computed afterwards in that same interpreter
+        import json
+        import subprocess
+
+        p = subprocess.run([sys.executable, "-m", "pbt.checks.c17", "--threads"], input=json.dumps(case), capture_output=True, text=True, cwd=str(H.VERIF), timeout=1800)
+        if p.returncode != 0:
+            raise H.HarnessError(f"fresh thread interpreter failed: {p.stderr[-400:]}")
+        res = json.loads(p.stdout.strip().splitlines()[-1])
+        for i, (rs, bs) in enumerate(zip(res["results"], res["base"])):
+            for j, (r, b) in enumerate(zip(rs, bs)):
+                if r != b:
+                    out.append((f"thread-result-differs-on-first-use/{case['loads'][i][j]['kind']}", f"thread {i} item {j}: {H.canon(r)[:150]} != sequential {H.canon(b)[:150]}"))
+                    break
+            if out:
+                break
     elif case["kind"] == "threads":
         loads = case["loads"]
         base = [[run_item(it)[0] for it in load] for load in loads]
@@ -388,10 +405,16 @@ def _thread_worker(job):
         loads = []
         for i in range(nthreads):
             loads.append([draw(mk(force_cls=shared_cls if j == 0 else None)) for j in range(draw(st.integers(1, 3)))])
-        return {"kind": "threads", "loads": loads, "rounds": 2}
+        c = {"kind": "threads", "loads": loads, "rounds": 2}
+        if draw(st.booleans()):
+            # first-use variant: every thread starts with an item of the shared class, in a fresh interpreter
+            for load in loads:
+                load[0] = draw(mk(force_cls=shared_cls).filter(lambda it: it["kind"] in ("wire", "tree", "dirtytree", "introspect")))
+            c["fresh"] = True
+        return c
 
     def body(c):
-        s.case(c, nontrivial=len(c["loads"]) >= 4, labels=["threads:%d" % len(c["loads"])])
+        s.case(c, nontrivial=len(c["loads"]) >= 4, labels=["threads:%d" % len(c["loads"])] + (["threads are first users in a fresh interpreter"] if c.get("fresh") else []))
         for k, d in check_case(c):
             s.fail(k, c, d)
 
@@ -407,8 +430,36 @@ def run(ctx):
     ctx.pmap(_thread_worker, [(names[i::16], nt, ctx.sub_seed("t", i)) for i in range(16)])
 
 
+def _threads_fresh_main():
+    import json
+
+    H.setup_path()
+    case = json.loads(sys.stdin.read())
+    loads = case["loads"]
+    warnings.simplefilter("ignore")
+    warnings.showwarning = _no_show
+    results = [None] * len(loads)
+    barrier = threading.Barrier(len(loads))
+
+    def worker(i):
+        barrier.wait(timeout=300)
+        results[i] = [json.loads(H.canon(run_item(it)[0])) for it in loads[i]]
+
+    sys.setswitchinterval(1e-6)
+    ths = [threading.Thread(target=worker, args=(i,)) for i in range(len(loads))]
+    for t in ths:
+        t.start()
+    for t in ths:
+        t.join(900)
+    sys.setswitchinterval(0.005)
+    base = [[json.loads(H.canon(run_item(it)[0])) for it in load] for load in loads]
+    print(json.dumps({"results": results, "base": base}))
+
+
 if __name__ == "__main__":
-    if "--eval" in sys.argv:
+    if "--threads" in sys.argv:
+        _threads_fresh_main()
+    elif "--eval" in sys.argv:
         import json
 
         H.setup_path()
